@@ -10,7 +10,7 @@ R11c  every exit reachable after an algorithm call returns 0; the value printed 
 import os
 
 from lib import env, ex
-from . import common
+from . import common, c20
 
 TITLE = 'C11: dominance / reachability / control-dependence rules on the CFG of each demo main.'
 
@@ -267,6 +267,7 @@ def run(rep, tier):
     rep.rule('R11a', 'validators dominate algorithm calls; rejecting edge leads to non-zero exit with diagnostic', floor=12)
     rep.rule('R11b', 'MPI demo: gate and exits are rank-uniform', floor=4)
     rep.rule('R11c', 'success path returns 0 and prints an entry point\'s return value', floor=7)
+    rep.rule('R11d', '--cores=0 ("all cores", a valid option value) never reaches the TBB knob as 0', floor=2)
     tus = env.demo_tus()
     if len(tus) < 4:
         rep.analysis_broken('expected 4 demo programs under src/, found %d' % len(tus))
@@ -279,15 +280,23 @@ def run(rep, tier):
             rep.analysis_broken('%s has no main' % tu)
         for m in ms:
             check_main(rep, prog, m, algo)
+            c20.knob_zero(rep, prog, m, 'R11d')
     # positive example: the pre-fix MPI shape and a gate that falls through
     pos = os.path.join(env.WITNESS, 'positive', 'c11_rank0_gate.cc')
     pp = env.extract([pos], 'full')[pos]
     prep = type(rep)(rep.prop, rep.tier)
     for m in common.mains(pp):
         check_main(prep, pp, m, common.algorithm_frefs(pp))
+    pos20 = os.path.join(env.WITNESS, "positive", "c11_zero_cores.cc")
+    pp20 = env.extract([pos20], 'full')[pos20]
+    for m in common.mains(pp20):
+        c20.knob_zero(prep, pp20, m, 'R11d')
+    rep.positive('R11d', 'witness/positive/c11_zero_cores.cc',
+                 any(i.status == 'violation' and i.rule == 'R11d' for i in prep.instances.values()))
     for r in ('R11a', 'R11b', 'R11c'):
         rep.positive(r, 'witness/positive/c11_rank0_gate.cc',
                      any(i.status == 'violation' and i.rule == r for i in prep.instances.values()))
+    rep.assume('tbb::global_control(max_allowed_parallelism, 0) aborts the process (oneTBB release assertion)')
     rep.assume('all ranks read the same file (the demo opens the path on every rank)')
     rep.assume('the demos are analysed in the pinned configuration (TBB+MPI); "prints the optimum" itself inherits C02\'s limits')
     rep.assume('a failing assert() after the algorithm is not counted as an exit path')
